@@ -334,7 +334,11 @@ def block_diagonalize(
                 continue
             block = H[(i, j, *zero_order)]
             if block is not zero:
-                if isinstance(block, (sympy.MatrixBase, sympy.Expr)):
+                if isinstance(block, sympy.MatrixBase):
+                    undecided = block.is_zero_matrix is not False
+                else:
+                    undecided = isinstance(block, sympy.Expr) and block.is_zero is not False
+                if undecided:
                     # This may happen if the expression wasn't simplified enough.
                     warn(
                         "Cannot confirm that the unperturbed Hamiltonian is "
